@@ -23,7 +23,11 @@ def main(argv):
     cwd = os.getcwd()
     try:
         os.chdir(tmp)
-        mod.run_shard(sh, params)
+        if "_ambient" in params:
+            from vf import ambient
+            ambient.run(sh, params["_ambient"])
+        else:
+            mod.run_shard(sh, params)
         res = sh.result()
     except BaseException:
         res = sh.result()
